@@ -164,7 +164,8 @@ PROPS = {
         lean_modules=["HW.Props.C14"],
         facts=True,
         streams=[dict(name="ring", pkg="ringbuffer", test="TestVerifRing", shrink_key="ops"),
-                 dict(name="ringsched", pkg="ringbuffer", test="TestVerifRingSched", shrink_key="sched", extra_overlay=ring_shim_overlay)],
+                 dict(name="ringsched", pkg="ringbuffer", test="TestVerifRingSched", shrink_key="sched", extra_overlay=ring_shim_overlay),
+                 dict(name="ringfine", pkg="ringbuffer", test="TestVerifRingFine", extra_overlay=ring_shim_overlay)],
         rule="ring: every op sequence of length <= L over {push,pop,popN1,popN2} for capacities 1..3 (exhaustive) plus "
              "seeded random sequences (capacities 1..9,16,1024; phases biased to grow at every head position); "
              "a case is non-trivial iff the model grows or wraps in it; distinct = distinct input lines; "
@@ -206,10 +207,11 @@ MANIFEST_TEXT = {
              "position at growth). The model is tied to the code on every run by exact differential replay of exhaustive small-scope and "
              "seeded random op sequences on the real RingBuffer, and by regenerated lock-shape facts (each method one critical section; Len one atomic load). "
              "Linearizability is a theorem too (HW.C14.linearizable over the fine-grained model HW.RingConc: for every set of thread programs and every schedule of lock acquisitions, atomic adds, releases and loads, "
-             "each thread's results are those of the sequential FIFO run in linearization order); the stream ringsched runs the real ringbuffer.go under the scheduler shim through all interleavings of small programs.",
+             "each thread's results are those of the sequential FIFO run in linearization order); the stream ringsched runs the real ringbuffer.go under the scheduler shim through all interleavings of small programs, and the stream ringfine drives it at the granularity of the model "
+             "(every mutex attempt, every atomic add inside a critical section, every release and load is one scheduled step, replayed one by one as RingConc.step with all counter values compared).",
         design_ref="DESIGN.md section 4, C14",
-        note="Trusted: Lean kernel; axioms propext/Quot.sound only; sync.Mutex mutual exclusion and sync/atomic semantics (the fine-grained model RingConc is tied to the code by the regenerated facts 'one critical section, one atomic add inside it, per method' "
-             "and by ringsched at method granularity, not step by step); the correspondence harness and generators; int64 overflow and capacity 0 / negative PopN are outside the claim.",
+        note="Trusted: Lean kernel; axioms propext/Quot.sound only; sync.Mutex mutual exclusion and sync/atomic semantics (the fine-grained model RingConc is tied to the code by the regenerated facts 'one critical section, one atomic add inside it, per method', "
+             "by ringsched at method granularity and by ringfine step by step with random schedules; the mutex itself is the Go runtime's); the correspondence harness and generators; int64 overflow and capacity 0 / negative PopN are outside the claim.",
         technique="Lean 4 refinement proof (invariant + induction over op sequences) + differential correspondence against the Go code",
     ),
     "C15": dict(
